@@ -233,5 +233,115 @@ Proof.
     assert (r0 = 20) by lia. subst r0.
     split; [|split; [reflexivity|]].
     + cbn [res_bytes]. change (Z.to_nat (20 - 20)) with 0%nat. cbn [repeat]. rewrite app_nil_r. rewrite <- app_assoc. exact S0.
-    + repeat split; try lia; [exact Rs|]. change (20 - 20 >? 0) with false. unfold cab_size_mismatch in Esm. lia.
+    + repeat split; try lia; [exact Rs|]. change (20 - 20 >? 0) with false. cbv iota. unfold cab_size_mismatch in Esm. lia.
+Qed.
+
+Lemma enc_folders_cons fv fs : enc_folders (fv :: fs) = enc_struct cabfh_widths fv ++ enc_folders fs.
+Proof. reflexivity. Qed.
+Lemma enc_folders_zlen fs : Forall (in_range cabfh_widths) fs -> zlen (enc_folders fs) = cabfh_size * zlen fs.
+Proof.
+  induction 1 as [|fv fs Hf _ IH]; [reflexivity|].
+  rewrite enc_folders_cons, zlen_app, zlen_cons, IH, (enc_struct_zlen _ _ Hf). cbn [wsum fold_right cabfh_widths]. unfold cabfh_size. lia.
+Qed.
+Lemma enc_folders_bytes fs : all_bytes (enc_folders fs) = true.
+Proof. induction fs as [|fv fs IH]; [reflexivity|]. now rewrite enc_folders_cons, all_bytes_app, enc_struct_bytes, IH. Qed.
+
+Lemma read_folders_sound fuel : forall i n s fs r, all_bytes s = true -> read_folders fuel i n s = Ok (fs, r) ->
+  s = enc_folders fs ++ r /\ Forall (in_range cabfh_widths) fs /\ (n - i < Z.of_nat fuel -> zlen fs = Z.max 0 (n - i)).
+Proof.
+  induction fuel as [|fuel IH]; intros i n s fs r Hb H; cbn [read_folders] in H.
+  - inversion H; subst. repeat split; [constructor|]. intros. rewrite zlen_nil. lia.
+  - unfold cab_more_folders in H. destruct (i <? n) eqn:E.
+    + destruct (take_n cabfh_size s) as [[fb s']| |] eqn:E1; cbn [bind fst snd] in H; try discriminate.
+      apply take_n_inv in E1 as [L1 E1]. inversion E1; subst fb s'; clear E1.
+      remember (dec_struct cabfh_widths (ztake cabfh_size s)) as fv eqn:Efv.
+      destruct (read_folders fuel (i + 1) n (zdrop cabfh_size s)) as [[fs' r']| |] eqn:E2; cbn [bind fst snd] in H; try discriminate.
+      inversion H; subst fs r; clear H. subst fv.
+      destruct (IH _ _ _ _ _ (all_bytes_zdrop _ _ Hb) E2) as (S2 & F2 & Z2).
+      split; [|split].
+      * rewrite enc_folders_cons, <- app_assoc, <- S2.
+        rewrite enc_dec_struct; [symmetry; apply ztake_zdrop|exact nonneg_cabfh|now apply all_bytes_ztake|].
+        rewrite zlen_ztake by (pose proof (zlen_nonneg s); unfold cabfh_size in *; lia). reflexivity.
+      * constructor; [|exact F2]. apply dec_struct_range; [exact nonneg_cabfh|now apply all_bytes_ztake].
+      * intros Hf. rewrite zlen_cons, Z2 by lia. lia.
+    + inversion H; subst. repeat split; [constructor|]. intros. rewrite zlen_nil. lia.
+Qed.
+Lemma read_folders_complete fs : forall fuel i n r, Forall (in_range cabfh_widths) fs -> zlen fs = n - i -> (length fs < fuel)%nat ->
+  read_folders fuel i n (enc_folders fs ++ r) = Ok (fs, r).
+Proof.
+  induction fs as [|fv fs IH]; intros fuel i n r F L Hf; (destruct fuel as [|fuel]; [lia|]); cbn [read_folders]; unfold cab_more_folders.
+  - rewrite zlen_nil in L. replace (i <? n) with false by lia. reflexivity.
+  - rewrite zlen_cons in L. pose proof (zlen_nonneg fs). replace (i <? n) with true by lia.
+    inversion F as [|? ? F1 F2]; subst. rewrite enc_folders_cons, <- app_assoc.
+    rewrite take_n_app by (rewrite (enc_struct_zlen _ _ F1); reflexivity). cbn [bind fst snd].
+    rewrite IH by (try assumption; cbn [length] in Hf; lia). cbn [bind fst snd].
+    now rewrite dec_enc_struct0.
+Qed.
+
+Lemma cab_parse_sound f p : all_bytes f = true -> cab_parse f = Ok p -> cabp_ok p /\ f = cab_write p.
+Proof.
+  intros Hb H. unfold cab_parse in H.
+  destruct (take_n cabh_size f) as [[hb s0]| |] eqn:E0; cbn [bind fst snd] in H; try discriminate.
+  apply take_n_inv in E0 as [L0 E0]. inversion E0; subst hb s0; clear E0.
+  pose proof (dec_struct_range cabh_widths (ztake cabh_size f) nonneg_cabh (all_bytes_ztake _ _ Hb)) as Rh.
+  pose proof (enc_dec_struct cabh_widths (ztake cabh_size f) nonneg_cabh (all_bytes_ztake _ _ Hb)) as Eh.
+  rewrite zlen_ztake in Eh by (pose proof (zlen_nonneg f); unfold cabh_size in *; lia). specialize (Eh eq_refl).
+  remember (dec_struct cabh_widths (ztake cabh_size f)) as hv eqn:Ehv. clear Ehv.
+  destruct (cab_bad_magic (fld cabh_ix_Magic hv)) eqn:Em; try discriminate.
+  pose proof (all_bytes_zdrop cabh_size f Hb) as Hb0.
+  destruct (cab_parse_reserve hv (zdrop cabh_size f)) as [[res s1]| |] eqn:E1; cbn [bind fst snd] in H; try discriminate.
+  destruct (parse_reserve_sound _ _ _ _ Hb0 E1) as (S1 & Fr & Pr).
+  destruct (cab_multipart _) eqn:Emu; try discriminate.
+  destruct (cab_unsupported_flags _) eqn:Efl; try discriminate.
+  assert (Hb1 : all_bytes s1 = true).
+  { rewrite S1, all_bytes_app in Hb0. now apply andb_true_iff in Hb0. }
+  destruct (read_folders folder_fuel 0 (fld cabh_ix_NumFolders hv) s1) as [[fs s2]| |] eqn:E2; cbn [bind fst snd] in H; try discriminate.
+  destruct (read_folders_sound _ _ _ _ _ _ Hb1 E2) as (S2 & F2 & Z2).
+  assert (Hb2 : all_bytes s2 = true).
+  { rewrite S2, all_bytes_app in Hb1. now apply andb_true_iff in Hb1. }
+  destruct (take_n _ s2) as [[data s3]| |] eqn:E3; cbn [bind fst snd] in H; try discriminate.
+  apply take_n_inv in E3 as [L3 E3]. inversion E3; subst data s3; clear E3.
+  unfold cab_data_len in *.
+  set (D := fc_wrap32 (fld cabh_ix_TotalSize hv - fld cabh_ix_OffsetFiles hv)) in *.
+  pose proof (wrap32_range (fld cabh_ix_TotalSize hv - fld cabh_ix_OffsetFiles hv)) as RD. fold D in RD.
+  assert (Rflags : 0 <= fld cabh_ix_Flags hv < 65536 /\ 0 <= fld cabh_ix_NumFolders hv < 65536).
+  { assert (Lh : length hv = 12%nat) by (rewrite (in_range_length _ _ Rh); reflexivity).
+    do 13 (destruct hv as [|? hv]; try discriminate). clear Lh.
+    repeat match goal with R : in_range _ _ |- _ => inversion R; clear R; subst | R : Forall2 _ _ _ |- _ => inversion R; clear R; subst end.
+    cbn [fld nth cabh_ix_Flags cabh_ix_NumFolders]. lia. }
+  pose proof (flags_cases _ (proj1 Rflags) Emu Efl) as Fc. rewrite Fr in Fc.
+  destruct (match (if res_has_sig res then take_n (fld cabsh_ix_SignatureSize (res_sv res)) (zdrop D s2) else Ok ([], zdrop D s2)) with
+            | Ok x => Ok x | Err e => Err e | Panic e => Panic e end) as [[sig s4]| |] eqn:E4.
+  2,3: destruct (res_has_sig res); [destruct (take_n _ _); cbn [bind] in H; discriminate|discriminate].
+  assert (E4' : (if res_has_sig res then take_n (fld cabsh_ix_SignatureSize (res_sv res)) (zdrop D s2) else Ok ([], zdrop D s2)) = Ok (sig, s4)).
+  { destruct (if res_has_sig res then _ else _) as [x| |]; [now inversion E4|discriminate|discriminate]. }
+  clear E4. rewrite E4' in H. cbn [bind fst snd] in H.
+  destruct s4 as [|? ?]; try discriminate. inversion H; subst p; clear H.
+  assert (Sg : zdrop D s2 = sig /\ (if res_has_sig res then zlen sig = fld cabsh_ix_SignatureSize (res_sv res) else sig = [])).
+  { destruct (res_has_sig res) eqn:Es.
+    - apply take_n_inv in E4' as [L4 E4']. inversion E4' as [[Ea Eb]].
+      assert (Hsv : 0 <= fld cabsh_ix_SignatureSize (res_sv res)).
+      { destruct res as [[[rv sv] pad]|]; [|discriminate]. destruct Pr as (_ & _ & Rs & _). cbn [res_sv].
+        assert (Ls : length sv = 5%nat) by (rewrite (in_range_length _ _ Rs); reflexivity).
+        do 6 (destruct sv as [|? sv]; try discriminate).
+        repeat match goal with R : in_range _ _ |- _ => inversion R; clear R; subst | R : Forall2 _ _ _ |- _ => inversion R; clear R; subst end.
+        cbn [fld nth cabsh_ix_SignatureSize]. lia. }
+      split.
+      + rewrite <- (ztake_zdrop (fld cabsh_ix_SignatureSize (res_sv res)) (zdrop D s2)). rewrite <- Eb, app_nil_r. reflexivity.
+      + apply zlen_ztake. lia.
+    - inversion E4'; subst. split; reflexivity. }
+  destruct Sg as [Sg1 Sg2].
+  split.
+  - constructor; cbn [c_hv c_res c_folders c_data c_sig].
+    + exact Rh.
+    + unfold cab_bad_magic in Em. unfold cab_Magic. lia.
+    + destruct res as [[[rv sv] pad]|]; cbn [res_ok]; [|exact Fc]. destruct Pr as (P1 & P2 & P3 & P4). repeat split; try assumption; lia.
+    + exact F2.
+    + rewrite Z2 by (unfold folder_fuel; lia). lia.
+    + apply zlen_ztake. lia.
+    + unfold cab_has_sig. cbn [c_res c_sig]. exact Sg2.
+  - unfold cab_write. cbn [c_hv c_res c_folders c_data c_sig].
+    rewrite <- (ztake_zdrop cabh_size f) at 1. rewrite Eh. f_equal.
+    rewrite S1 at 1. f_equal. rewrite S2 at 1. f_equal.
+    rewrite <- (ztake_zdrop D s2) at 1. f_equal. exact Sg1.
 Qed.
